@@ -222,9 +222,8 @@ pub(crate) fn analyze(
 // Gets the targets that would be ignored by this change.
 fn get_ignore_targets<'a>(index: &'a core::Index<'_>, name: &'a str) -> HashSet<&'a str> {
     let mut ignore_targets = HashSet::new();
-    index
-        .ignores
-        .common_prefix_search(name)
+    core::path_prefix_search(&index.ignores, name)
+        .into_iter()
         .for_each(|m: String| {
             if let Some(v) = index.ignore2targets.get(m.as_str()) {
                 v.iter().for_each(|target| {
@@ -251,9 +250,8 @@ fn analyze_change<'a>(
         None
     };
 
-    index
-        .targets_trie
-        .common_prefix_search(&change.name)
+    core::path_prefix_search(&index.targets_trie, &change.name)
+        .into_iter()
         .for_each(|target: String| {
             // find the target and its ancestors affected by this change
             if !ignore_targets.contains(target.as_str()) {
@@ -273,9 +271,8 @@ fn analyze_change<'a>(
                 trace!(target = &target, "Ignored target");
             }
         });
-    index
-        .uses
-        .common_prefix_search(&change.name)
+    core::path_prefix_search(&index.uses, &change.name)
+        .into_iter()
         .for_each(|m: String| {
             // find any targets mapped to this use
             if !ignore_targets.contains(m.as_str()) {
@@ -283,8 +280,9 @@ fn analyze_change<'a>(
                     use_targets.iter().for_each(|target| {
                         if !ignore_targets.contains(target) {
                             // each mapped target and its ancestors are added
-                            index.targets_trie.common_prefix_search(target).for_each(
-                                |target2: String| {
+                            core::path_prefix_search(&index.targets_trie, target)
+                                .into_iter()
+                                .for_each(|target2: String| {
                                     if !ignore_targets.contains(target2.as_str()) {
                                         targets.insert(target.to_string());
                                         update_change_targets(
@@ -301,8 +299,7 @@ fn analyze_change<'a>(
                                         );
                                         trace!(target = &target2, "Ignored uses target");
                                     }
-                                },
-                            );
+                                });
                         }
                     });
                 }
